@@ -218,7 +218,16 @@ partial def loop (h out : IO.FS.Stream) (n0 n : Nat) (st : St) : IO Unit := do
     loop h out n0 n {}
   | _ => loop h out n0 n st
 
+/-- `drv_c12 witnesses`: the traces the `C12_witness_*` theorems talk about, in the harness' notation (without counts) -/
+def printWitnesses : IO Unit := do
+  for (name, t) in [("k1_let_closure", witnessLetClosure), ("k2_fn_arg", witnessFnArg), ("k3_fn_ret", witnessFnRet),
+                    ("k4_box", witnessBox)] do
+    IO.println s!"{name}\t{" ".intercalate (t.map showOp)}"
+
 def main (args : List String) : IO UInt32 := do
+  if args.head? == some "witnesses" then
+    printWitnesses
+    return 0
   let n0 := (args[0]? >>= String.toNat?).getD 16
   let n := (args[1]? >>= String.toNat?).getD 2000
   loop (← IO.getStdin) (← IO.getStdout) n0 n {}
